@@ -113,8 +113,16 @@ pub fn check_spec(spec: &RuleSpec, level: u8, doc_cap: usize) -> Stats {
             continue;
         }
         if bit(v) & exp == 0 || m != Ok(v == 1) {
+            // recorded finding: the violation disappears when lone all() blocks are evaluated
+            // element by element, and the block's field is an array in this document
+            let lone = eng::lone_all_blocks(&rule.detection.expression, &rule.detection.identifiers);
+            let explained = m == Ok(v == 1)
+                && lone.iter().any(|f| matches!(refint::lookup(d, f), Some(crate::mdoc::MVal::Arr(_))))
+                && eng::val3_without_lone_all_shortcut(&rule.detection.expression, &rule.detection.identifiers, d)
+                    .map(|c| bit(c) & exp != 0)
+                    .unwrap_or(false);
             st.push_violation(Violation {
-                signature: format!("{} engine={} reference={}", shape(spec), eng::v3name(v), refint::set_name(exp)),
+                signature: if explained { eng::LONE_ALL_SIGNATURE.to_string() } else { format!("{} engine={} reference={}", shape(spec), eng::v3name(v), refint::set_name(exp)) },
                 witness: format!(
                     "engine {} (matches={:?}) reference {} ; rule {} doc {}",
                     eng::v3name(v),
